@@ -32,7 +32,7 @@ func (p *Prop) Meta() simkit.Meta {
 			"edge weights are multiples of 1/4 so that sums of parallel edges are exact in any order",
 			"sub-simulation (c) is input generation against definitional oracles; it is included because the mark set's growth path is only reached through the traversals at realistic sizes",
 		},
-		FaultKinds:    []string{"writer_error", "writer_short_write", "callback_crash"},
+		FaultKinds:    []string{"writer_error", "writer_short_write", "writer_transient_error", "callback_crash", "graph_out_crash"},
 		NotApplicable: []string{"message loss/duplication/reordering", "partitions", "crash-restart with durable state", "torn/lost disk writes (no durable state: the only I/O is one io.Writer)", "disk full", "clock skew/jumps", "allocation or syscall failure"},
 		RunsQuick:     120000, RunsThorough: 3000000,
 	}
